@@ -312,7 +312,7 @@ func runPortfolio(smt string, timeoutS int, seed int, which []string, needAll bo
 			cmd.Stderr = &out
 			cmd.Run()
 			secs := time.Since(t0).Seconds()
-			first := strings.TrimSpace(strings.SplitN(out.String(), "\n", 2)[0])
+			first := statusLine(out.String())
 			st := "unknown"
 			switch {
 			case first == "unsat":
@@ -552,4 +552,19 @@ func smtIntValue(v string) (int64, bool) {
 		n = -n
 	}
 	return n, true
+}
+
+// statusLine finds the solver's answer, skipping warning lines.
+func statusLine(out string) string {
+	for _, ln := range strings.Split(out, "\n") {
+		ln = strings.TrimSpace(ln)
+		switch ln {
+		case "sat", "unsat", "unknown", "timeout":
+			return ln
+		}
+		if strings.HasPrefix(ln, "(error") {
+			return ln
+		}
+	}
+	return strings.TrimSpace(strings.SplitN(out, "\n", 2)[0])
 }
